@@ -663,8 +663,12 @@ def _step(run, P):
     if len(comps) == 1:
         c = comps[0]
         gen = c.generators[0]
+        it_ = gen.iter
+        if isinstance(it_, ast.Call) and dotted(it_.func) in ("sorted", "list", "tuple") \
+                and len(it_.args) == 1 and not it_.keywords:
+            it_ = it_.args[0]
         if isinstance(gen.target, ast.Tuple) and len(gen.target.elts) == 2 \
-                and norm(gen.iter) == "dag.phases.items()":
+                and norm(it_) == "dag.phases.items()" and not gen.ifs:
             kname, pname = (e.id for e in gen.target.elts)
             v = c.value
             if isinstance(c.key, ast.Name) and c.key.id == kname and isinstance(v, ast.Tuple) \
@@ -1377,6 +1381,6 @@ def _genfunc(run, P):
 
 
 def check(run, P):
-    _check_main(run, P)
+    run.do(_check_main, run, P)
     from . import generic
     generic.lints(run, P, "C01")
